@@ -448,7 +448,7 @@ func c04Clamp(e *Env) {
 		for _, ret := range core.ReturnsOf(g) {
 			n++
 			v := core.Resolve(core.RetVal(ret, 0))
-			if c, isC := v.(*ssa.Call); isC && core.CalleeName(c) == "net/blockwise.getSzx" && len(c.Call.Args) == 2 &&
+			if c, isC := v.(*ssa.Call); isC && (core.CalleeName(c) == "net/blockwise.getSzx" || core.CalleeName(c) == "builtin.min") && len(c.Call.Args) == 2 &&
 				(core.Resolve(c.Call.Args[0]) == ssa.Value(max) || core.Resolve(c.Call.Args[1]) == ssa.Value(max)) {
 				viaMin = true // min(ours, peer's) through the helper verified above
 				continue
